@@ -124,6 +124,19 @@ func PlayGrid(tier string) []*Config {
 	add(cfg([]int64{4, 4, 4, 4, 4}, 0, 1, 3, 0, false, 0, "no", "sv:1,0,0,1,1", 2, 0, "standard", "classes"))
 	add(cfg([]int64{3, 3, 3, 3, 3, 3}, 0, 1, 2, 0, true, 1, "pot", "royal52", 2, 0, "standard", "classes"))
 
+	// (C') odd corners: equal blinds 3-handed, ante above the blinds, dealer blind only heads-up, 3 and 5 hole cards
+	for _, br := range vectors(3, []int64{2, 5}) {
+		add(cfg(br, 0, 2, 2, 0, false, 2, "no", "sv:1,1,0", 2, 0, "standard", "all"))
+		add(cfg(br, 3, 1, 2, 0, false, 0, "no", "sv:0,1,1", 2, 0, "standard", "classes"))
+	}
+	for _, br := range vectors(2, []int64{1, 3, 6}) {
+		add(cfg(br, 0, 0, 0, 3, false, 1, "no", "f52", 2, 0, "standard", "all"))
+		add(cfg(br, 1, 0, 2, 3, false, 0, "pot", "r52", 2, 0, "standard", "all"))
+	}
+	add(cfg([]int64{4, 3, 5}, 0, 1, 2, 0, false, 2, "no", "f52", 3, 0, "standard", "classes"))
+	add(cfg([]int64{3, 5}, 0, 1, 2, 0, false, 1, "no", "t52", 5, 2, "standard", "classes"))
+	add(cfg([]int64{3, 4, 2}, 0, 1, 2, 0, false, 0, "no", "f36", 4, 2, "short", "classes"))
+
 	// (D) decks that fit the hand exactly (every card is dealt by the river) or with one card to spare
 	for _, d := range []string{"f52:12", "f52:13", "r52:12", "t36:12"} {
 		add(cfg([]int64{3, 3}, 0, 1, 2, 0, false, 0, "no", d, 2, 0, "standard", "classes"))
